@@ -46,20 +46,23 @@ func runC05(c *Ctx) {
 		// Tier B: real mrp killed by real signals and restarted
 		n := 1
 		if c.Thorough {
-			n = 8
+			n = 3
 		}
 		if env, err := tbSetup(c); err != nil {
 			r.note("tier B unavailable: %v", err)
 		} else {
+			c05MrjobSignalWhileRecording(c, env)
 			tbC05(c, env, n)
 		}
 	}()
-	r.Rule = "programs as for C02; for each program one uninterrupted reference run, then runs with mrp killed (SIGKILL semantics: object dropped, _lock removed by the operator, in-flight jobs die with a dead pid recorded, or survive with probability 0.3) before event k for k ranging over the reference history (quick: a PRNG sample of crash points per program + double crashes; thorough: every event index), restarted the way mrp restarts (Reattach with source check, Reset, RestartLocalJobs, LoadMetadata), every fourth single-crash run in Config.FullStageReset mode (there finished work of a Running/Failed node is redone by design and not reported); monitors: the restarted pipestance completes, its top-level outputs equal the reference run's, no job whose successful completion was recorded before the crash is executed again, _lock is gone after completion; every history (with crash/restart/reset events) is replayed in the Lean Sched model (`mode fullreset` for the FullStageReset runs) and must end in a model state in which every node is finished; non-trivial = crash happened while >=1 job was in flight or finished-but-unnoticed; distinct = (program, crash points, history) hash"
+	c05SignalSequences(c)
+	c05ClusterSubmitWindow(c)
+	r.Rule = "signal sequences: an mrp-like helper process (SetupSignalHandlers, InvokePipeline) inside a critical section receives every sequence of one or two handled signals (TERM/INT/HUP), the second while the first waits for the critical section: it must terminate after the section ends with _lock removed; programs as for C02; for each program one uninterrupted reference run, then runs with mrp killed (SIGKILL semantics: object dropped, _lock removed by the operator, in-flight jobs die with a dead pid recorded, or survive with probability 0.3) before event k for k ranging over the reference history (quick: a PRNG sample of crash points per program + double crashes; thorough: every event index of histories up to 60 events, 60 evenly spread points of longer ones), restarted the way mrp restarts (Reattach with source check, Reset, RestartLocalJobs, LoadMetadata), every fourth single-crash run in Config.FullStageReset mode (there finished work of a Running/Failed node is redone by design and not reported); monitors: the restarted pipestance completes, its top-level outputs equal the reference run's, no job whose successful completion was recorded before the crash is executed again, _lock is gone after completion; every history (with crash/restart/reset events) is replayed in the Lean Sched model (`mode fullreset` for the FullStageReset runs) and must end in a model state in which every node is finished; non-trivial = crash happened while >=1 job was in flight or finished-but-unnoticed; distinct = (program, crash points, history) hash"
 	n := 40
 	perProg := 4
 	if c.Thorough {
-		n = 400
-		perProg = 0 // all crash points
+		n = 120
+		perProg = 0 // all crash points (histories of up to 60 events; longer ones: 60 evenly spread points)
 	}
 	progs := rtPrograms(c, n/2, GenOpts{Preflight: true})
 	progs = append(progs, rtProgramsGenOnly(c, n-n/2, GenOpts{Files: true, Retain: true})...)
@@ -86,7 +89,11 @@ func runC05(c *Ctx) {
 		ne := ref.NEvents
 		var points [][]int
 		if perProg == 0 {
-			for k := 1; k < ne; k++ {
+			step := 1
+			if ne > 60 {
+				step = (ne + 59) / 60
+			}
+			for k := 1 + c.Rng.Intn(step); k < ne; k += step {
 				points = append(points, []int{k})
 			}
 		} else {
@@ -97,7 +104,7 @@ func runC05(c *Ctx) {
 			points = append(points, []int{a, a + 1 + c.Rng.Intn(10)})
 		}
 		// mrp killed during / right after post-processing (negative = PostProcessCrash mode)
-		points = append(points, []int{-1}, []int{-2})
+		points = append(points, []int{-1}, []int{-2}, []int{-3})
 		for pi, pt := range points {
 			s := &TASpec{Name: fmt.Sprintf("%s#crash%v", p.Name, pt), Src: p.Src, MroPaths: p.MroPaths, Seed: c.Seed, StepBias: 0.4,
 				StartSeparate: 0.3, CrashAt: pt, CrashSurvive: 0.3, WantEvents: true, WantTrace: true, TimeoutS: 40}
@@ -118,8 +125,8 @@ func runC05(c *Ctx) {
 	}
 	results := RunSpecs(specs, 14)
 	for i, cs := range cases {
-		res := results[i]
-		r.hist("final_" + finalClass(res.Final))
+		res := confirmAlone(c, cs.spec, results[i])
+		r.hist("final_" + finalKey(res.Final))
 		if res.Final == "process-exit" || len(res.Events) == 0 {
 			if res.Final == "process-exit" {
 				r.violate(Violation{Kind: "property", Key: "C05:mrp-exits-after-restart",
@@ -153,7 +160,7 @@ func runC05(c *Ctx) {
 			kp = "C05:fullreset:"
 		}
 		if res.Final != "complete" {
-			r.violate(Violation{Kind: "property", Key: kp + "not-completed:" + finalClass(res.Final),
+			r.violate(Violation{Kind: "property", Key: kp + "not-completed:" + finalKey(res.Final),
 				What:  fmt.Sprintf("after kill+restart the pipestance ended %q (%s) although the uninterrupted run completes", finalClass(res.Final), firstLine(res.ErrMsg)),
 				Input: input})
 			continue
@@ -221,7 +228,17 @@ func runC05(c *Ctx) {
 				cl = cl[:i]
 			}
 			r.hist("model_end_" + cl)
-			if end != "finished" && end != "done" {
+			// decidable hypotheses of the C05 run theorems on this history: topo (⇒ Acyclic) must hold;
+			// benign (no chunk count redefined while re-attaching) is the extra hypothesis of
+			// restart_completes_same_completion_set: histories without it are counted, not covered by it
+			if v := schedHypNote(detail, "topo"); v == "no" {
+				r.violate(Violation{Kind: "correspondence", Key: "C05:hypothesis-fails-on-real-run:topo",
+					What:   "the graph of a real run is not topologically numbered (hypothesis Acyclic of restart_completes): " + detail,
+					Input:  map[string]interface{}{"program": cs.prog.Src, "seed": cs.spec.Seed, "trace": res.Trace},
+					Broken: "hypotheses of Props.C05.restart_completes hold on real runs"})
+			}
+			r.hist("hyp_benign_" + schedHypNote(detail, "benign"))
+			if end != "finished" {
 				r.violate(Violation{Kind: "correspondence", Key: "C05:model-not-finished:" + cl,
 					What:   "the restarted pipestance completed but the model's end state is not finished: " + detail,
 					Input:  map[string]interface{}{"program": cs.prog.Src, "crash_at": cs.spec.CrashAt, "seed": cs.spec.Seed, "fullreset": cs.spec.FullReset, "trace": res.Trace},
@@ -260,11 +277,11 @@ func runC06(c *Ctx) {
 			tbC06(c, env, n)
 		}
 	}()
-	r.Rule = "programs as for C02; reference run gives the job list; then fault enumeration: for each (job, manifestation) — quick: a PRNG sample, thorough: all — with manifestation in {_errors, _assert, silent non-zero exit (job manager writes _errors), truncated _outs, missing output key, wrong JSON type, bad _stage_defs (split jobs)}: the pipestance must end failed (never complete), the reported error must name the failing stage, no job of a call that depends on the failed call (source-level dependency oracle) may be submitted after the failure, and after restart without the fault it must complete with the reference outputs re-executing only unfinished work; every history is replayed in the Lean Sched model; non-trivial = the failing job has >=1 dependent call or >=1 independent sibling; distinct = (program, job, kind)"
+	r.Rule = "programs as for C02; reference run gives the job list; then fault enumeration: for each (job, manifestation) — quick: a PRNG sample, thorough: all — with manifestation in {_errors, _assert, silent non-zero exit (job manager writes _errors), job lost without a trace in cluster mode (a job manager with a queue query; the lost job alone in flight or not), job that sent a heartbeat and then died without a trace in local mode (heartbeat timeout in simulated time), truncated _outs, _outs = null, missing output key, wrong JSON type, bad _stage_defs (split jobs)}: the pipestance must end failed (never complete), the reported error must name the failing stage, no job of a call that depends on the failed call (source-level dependency oracle) may be submitted after the failure, and after restart without the fault it must complete with the reference outputs re-executing only unfinished work; every history is replayed in the Lean Sched model; non-trivial = the failing job has >=1 dependent call or >=1 independent sibling; distinct = (program, job, kind)"
 	n := 40
 	perProg := 6
 	if c.Thorough {
-		n = 300
+		n = 100
 		perProg = 0
 	}
 	progs := rtPrograms(c, n/2, GenOpts{})
@@ -369,18 +386,37 @@ func runC06(c *Ctx) {
 				r.hist("fault_on_preflight_programs")
 			}
 		}
+		// cluster-mode stream: a job that vanishes without leaving any file (killed in the scheduler's queue,
+		// node lost); only the queue query (Pipestance.queryQueue -> failNotRunning -> endRefresh) can fail it.
+		// The lost job is alone in flight or not, as the program and the schedule have it.
+		nlost := 1
+		if perProg == 0 {
+			nlost = 4
+		}
+		for _, ji := range c.Rng.Perm(len(jobs)) {
+			if nlost == 0 {
+				break
+			}
+			nlost--
+			all = append(all, jk{jobs[ji], "lost"})
+		}
+		// local mode: a job that started, sent a heartbeat and then died without a trace is only noticed by
+		// the heartbeat timeout (60 minutes, simulated: TASpec.AgeHeartbeats)
+		if len(jobs) > 0 {
+			all = append(all, jk{jobs[c.Rng.Intn(len(jobs))], "hang"})
+		}
 		for _, x := range all {
 			s := &TASpec{Name: fmt.Sprintf("%s#fault:%s:%s", p.Name, x.j, x.k), Src: p.Src, MroPaths: p.MroPaths, Seed: c.Seed, StepBias: 0.4,
 				StartSeparate: 0.3, Faults: []*Fault{{JobKey: x.j, Kind: x.k}}, RestartAfterFail: true,
-				WantEvents: true, WantTrace: true, TimeoutS: 40}
+				WantEvents: true, WantTrace: true, TimeoutS: 40, Cluster: x.k == "lost", AgeHeartbeats: x.k == "hang"}
 			cases = append(cases, faultCase{p, ref, x.j, x.k, s})
 			specs = append(specs, s)
 		}
 	}
 	results := RunSpecs(specs, 14)
 	for i, cs := range cases {
-		res := results[i]
-		r.hist("final_" + finalClass(res.Final))
+		res := confirmAlone(c, cs.spec, results[i])
+		r.hist("final_" + finalKey(res.Final))
 		r.hist("kind_" + cs.kind)
 		if len(res.Events) == 0 {
 			continue
@@ -458,7 +494,7 @@ func runC06(c *Ctx) {
 		}
 		// 4. after restart without the fault: completes with the reference outputs, only unfinished work re-executed
 		if res.Final != "complete" {
-			r.violate(Violation{Kind: "property", Key: "C06:restart-not-complete:" + cs.kind + ":" + finalClass(res.Final),
+			r.violate(Violation{Kind: "property", Key: "C06:restart-not-complete:" + cs.kind + ":" + finalKey(res.Final),
 				What:  fmt.Sprintf("after removing the fault and restarting, the pipestance ended %q (%s)", finalClass(res.Final), firstLine(res.ErrMsg)),
 				Input: input})
 		} else {
@@ -482,7 +518,12 @@ func runC06(c *Ctx) {
 				}
 			}
 		}
-		if ok, detail, done := replayInModel(c, res); done && !ok {
+		ok, detail, done := replayInModel(c, res)
+		if done && ok && strings.Contains(detail, "note=reopened-finished-node") {
+			// the `…_partial` transitive theorems (hypothesis reopened = false) do not cover this history
+			r.hist("histories_with_reopened_node")
+		}
+		if done && !ok {
 			r.violate(Violation{Kind: "correspondence", Key: "C06:sched-replay-reject:" + classifyReject(detail),
 				What:   "the Lean Sched model rejects a real failure history: " + detail,
 				Input:  map[string]interface{}{"program": cs.prog.Src, "fault": cs.job + ":" + cs.kind, "seed": cs.spec.Seed, "trace": res.Trace},
